@@ -25,7 +25,10 @@
       ([aff_toks_ok], for Json.wf) and that [tokq (qtok q) = Some q] ([aff_rt], for [of_content]); the
       executable instance [qtok_dec] / [tokq_dec] (exact decimal expansion) is Python's repr on dyadic
       rationals with at most 15 significant digits and magnitude in [1e-4, 1e16) or zero;
-    * 'dcmmeta_reorient_transform' = null: the Ext model does not track the reorientation transform;
+    * 'dcmmeta_reorient_transform': [hdr] has no such field (the extension algebra never reads it; Ext/Types.v is
+      shared by everything).  The transform is carried BESIDE the extension: [to_content_r qtok reo e] renders
+      [reo : option (list (list Q))] ([None] = null, [Some m] like the affine, same token treatment);
+      [to_content qtok e := to_content_r qtok None e].  Conversions with a voxel order produce [Some m];
     * 'dcmmeta_version' = the generated [meta_version] token.
 
     [of_content c] is defined exactly when the header fields are well typed (shape: list of non-negative
@@ -135,11 +138,22 @@ Section WithTok.
   Definition row_jv (r : list Q) : jv := JArr (map (fun q => JNum (qtok q)) r).
   Definition aff_jv (a : list (list Q)) : jv := JArr (map row_jv a).
 
-  Definition header_members (h : hdr) : CS.obj :=
-    [(PV.K_shape, shape_jv (shape h)); (PV.K_affine, aff_jv (aff h)); (K_reorient, JNull);
+  (** the reorientation transform of a conversion with a voxel order: not part of [hdr] (the extension algebra never
+      reads it), carried beside the extension; [None] = null *)
+  Definition reo_jv (reo : option (list (list Q))) : jv :=
+    match reo with None => JNull | Some m => aff_jv m end.
+
+  Definition header_members_r (reo : option (list (list Q))) (h : hdr) : CS.obj :=
+    [(PV.K_shape, shape_jv (shape h)); (PV.K_affine, aff_jv (aff h)); (K_reorient, reo_jv reo);
      (PV.K_slice_dim, sdim_jv (sdim h)); (PV.K_version, version_jv)].
 
-  Definition to_content (e : jext) : jv := JObj (base_members e ++ header_members (hdr_of e)).
+  (** the content of the extension [e] whose reorientation transform is [reo] *)
+  Definition to_content_r (reo : option (list (list Q))) (e : jext) : jv :=
+    JObj (base_members e ++ header_members_r reo (hdr_of e)).
+
+  (** without a transform (everything but conversions with a voxel order) *)
+  Definition header_members (h : hdr) : CS.obj := header_members_r None h.
+  Definition to_content (e : jext) : jv := to_content_r None e.
 
   Definition q_of_jv (v : jv) : option Q :=
     match v with JNum t => tokq t | JInt z => Some (inject_Z z) | _ => None end.
@@ -164,10 +178,60 @@ Section WithTok.
     | _ => None
     end.
 
+  (** the transform a content records ([Some None]: null or, for version 0.5, no such field) *)
+  Definition reo_of_content (c : jv) : option (option (list (list Q))) :=
+    match c with
+    | JObj o => match jassoc K_reorient o with
+                | None | Some JNull => Some None
+                | Some (JArr rows) => option_map Some (omap row_of_jv rows)
+                | Some _ => None
+                end
+    | _ => None
+    end.
+
+  (** the extents are positive ints, the affine and the slice dimension are readable; and, beyond the header, what
+      a dict is: every base / class dictionary that is present is a dictionary, with distinct member names, and holds
+      a list under every varying class *)
+  Definition typed (c : jv) : Prop :=
+    match c with
+    | JObj o =>
+        (exists sh, jassoc PV.K_shape o = Some (shape_jv sh) /\ Forall (fun n => 1 <= n) sh) /\
+        (exists rows a, jassoc PV.K_affine o = Some (JArr rows) /\ omap row_of_jv rows = Some a) /\
+        (exists sdv sd, jassoc PV.K_slice_dim o = Some sdv /\ sdim_of_jv sdv = Some sd) /\
+        (forall c, CS.class_entry_ok o (name_of_cls c) = true) /\
+        (forall c d, CS.class_dict o (name_of_cls c) = Some d ->
+                     NoDup (map fst d) /\ (c <> GConst -> forall k v, In (k, v) d -> exists vs, v = JArr vs))
+    | _ => False
+    end.
+
   (** the token hypotheses, for the affine of one header *)
   Definition aff_toks_ok (h : hdr) : bool := forallb (forallb (fun q => JM.float_tok (qtok q))) (aff h).
   Definition aff_rt (h : hdr) : Prop := Forall (Forall (fun q => tokq (qtok q) = Some q)) (aff h).
+  (** ... and for a reorientation transform *)
+  Definition reo_toks_ok (reo : option (list (list Q))) : bool :=
+    match reo with None => true | Some m => forallb (forallb (fun q => JM.float_tok (qtok q))) m end.
+  Definition reo_rt (reo : option (list (list Q))) : Prop :=
+    match reo with None => True | Some m => Forall (Forall (fun q => tokq (qtok q) = Some q)) m end.
 End WithTok.
+
+(** dictionaries of classifications that are not valid for the recorded shape are dropped (check_valid never reads
+    them; the abstraction cannot hold their keys) *)
+Definition prune_stale (c : jv) : jv :=
+  match c with
+  | JObj o =>
+      match jassoc PV.K_shape o with
+      | Some (JArr shv) =>
+          match omap nat_of_jv shv with
+          | Some sh =>
+              JObj (filter (fun kv : str * jv =>
+                              negb ((str_eqb (fst kv) (name_of_base BTime) && negb (class_ok sh TSamples))
+                                    || (str_eqb (fst kv) (name_of_base BVector) && negb (class_ok sh VSamples)))) o)
+          | None => c
+          end
+      | _ => c
+      end
+  | _ => c
+  end.
 
 (** * What [to_content] keeps: the extensions that ARE the reading of a content dictionary *)
 
